@@ -1,4 +1,5 @@
 """C03 - search acceleration never loses, adds or moves a match (DESIGN.md 6/C03)."""
+import vlib
 from checks import relobs
 
 LEVEL = "model_checking"
@@ -10,7 +11,8 @@ def run(ctx, res):
     res.rule = ("(a) relational: FindRunesMatchStartingAt as shipped vs VerifNaive (the compiled program attempted at every position in scan "
                 "order: no candidate search, no prefix filter, no min-length cut-off, no bump-along) for every start offset, on patterns biased to "
                 "every find mode (leading string(s), fixed-distance char/string/sets, literal after loop, landmark chain, trailing anchor, anchors, "
-                "Boyer-Moore, first-char sets incl. astral) and on random ASTs in both directions; code-gen analysis on vs off. (b) trace validation "
+                "Boyer-Moore, first-char sets incl. astral) on random ASTs in both directions, and on the patterns harvested from the string literals of the repository's own *_test.go files "
+                "(subjects derived from each pattern's words and from the neighbouring literals; relational only); code-gen analysis on vs off. (b) trace validation "
                 "of the SkipTo contract: every (from,to,found) of every candidate search is logged by the VerifOnFind hook and TLC accepts it only if "
                 "every position jumped over is dead - by RegexSem.Attempt inside the fragment, by the naive table outside. evaluations = searches "
                 "compared; traces = candidate-search events validated; non-trivial = inputs with a real skip or a match")
@@ -18,12 +20,14 @@ def run(ctx, res):
     if ctx.tier == "quick":
         plan = [("accel", ["-n", "2500", "-profile", "accel", "-variant", "naive"]),
                 ("wide", ["-n", "900", "-profile", "wide", "-rtl", "both", "-variant", "naive"]),
-                ("codegen", ["-n", "700", "-profile", "accel", "-variant", "codegen"])]
+                ("codegen", ["-n", "700", "-profile", "accel", "-variant", "codegen"]),
+                ("harvest", ["-profile", "harvest", "-harvest", vlib.REPO, "-variant", "naive", "-rtl", "both"])]
     else:
         plan = [("accel%d" % i, ["-n", "6000", "-profile", "accel", "-variant", "naive", "-maxlen", "16"]) for i in range(4)] + \
                [("wide%d" % i, ["-n", "3000", "-profile", "wide", "-rtl", "both", "-variant", "naive"]) for i in range(3)] + \
                [("frag%d" % i, ["-n", "3000", "-profile", "fragment", "-rtl", "both", "-variant", "naive"]) for i in range(2)] + \
-               [("codegen%d" % i, ["-n", "3000", "-profile", "accel", "-variant", "codegen"]) for i in range(2)]
+               [("codegen%d" % i, ["-n", "3000", "-profile", "accel", "-variant", "codegen"]) for i in range(2)] + \
+               [("harvest-" + v, ["-profile", "harvest", "-harvest", vlib.REPO, "-variant", v, "-rtl", "both"]) for v in ("naive", "codegen")]
     for k, (label, args) in enumerate(plan):
         relobs.obs_rel(ctx, res, args + ["-stream", str(S + k)], label, RULES)
     res.assumptions += ["TLC and the CommunityModules Json/IOUtils", "the VerifNaive hook copy shares the compiled program and only replaces the candidate search",
